@@ -1,6 +1,9 @@
 // C15 oracle, suspension clause: "merges made while the source is suspended ... are delivered afterwards". The source is suspended
 // from its own registration handler or from its own event handler (dispatch_suspend has returned on that thread), a value is merged
 // right afterwards; nothing may be delivered until dispatch_resume, and then exactly what was merged is.
+// Third history (forced): another thread's dispatch_suspend lands after the invocation has decided to deliver and before the handler
+// is called - the invoking thread is held just before it takes the pending value. The value is then delivered by that committed
+// invocation or after the resume, never lost.
 // usage: c15_regsusp <seed>
 #define _GNU_SOURCE
 #include <dispatch/dispatch.h>
@@ -9,6 +12,12 @@
 #include <stdlib.h>
 #include <unistd.h>
 #include <stdatomic.h>
+#include <string.h>
+#include <pthread.h>
+extern void (*_dispatch_verif_yield_cb)(const volatile void *addr, const char *func, int line);
+static atomic_int y_arm, y_held, y_go; static pthread_t main_th;
+static void ycb(const volatile void *addr, const char *func, int line){ (void)addr;(void)line; if(strcmp(func,"_dispatch_source_latch_and_call") || pthread_equal(pthread_self(),main_th)) return;
+  if(atomic_exchange(&y_arm,0)){ atomic_store(&y_held,1); for(int w=0; w<20000 && !atomic_load(&y_go); w++) usleep(50); } }
 static atomic_int viol; static char vmsg[300];
 static void fail(const char *m, long a, long b, long c){ if(!atomic_exchange(&viol,1)) snprintf(vmsg,sizeof vmsg,"%s %ld %ld %ld",m,a,b,c); }
 int main(int argc,char**argv){ uint64_t seed=argc>1?strtoull(argv[1],0,0):1; long n=0;
@@ -35,5 +44,19 @@ int main(int argc,char**argv){ uint64_t seed=argc>1?strtoull(argv[1],0,0):1; lon
     unsigned long g = type==2 ? atomic_load(&last) : atomic_load(&got);
     if(!viol && g!=want) fail("a value merged while the source was suspended was not delivered after dispatch_resume (5 s): type / delivered / expected",type,(long)g,(long)want);
     dispatch_source_cancel(ds); dispatch_release(ds); if(tq<2) dispatch_release(q); n++; usleep(1000); }
+  main_th=pthread_self();
+  for(int rep=0; rep<4 && !viol; rep++) for(int type=0; type<3 && !viol; type++){ dispatch_queue_t q=dispatch_queue_create("rs.x",NULL);
+    dispatch_source_t ds=dispatch_source_create(type==0?DISPATCH_SOURCE_TYPE_DATA_ADD: type==1?DISPATCH_SOURCE_TYPE_DATA_OR: DISPATCH_SOURCE_TYPE_DATA_REPLACE,0,0,q);
+    __block _Atomic unsigned long got=0, last=0; dispatch_source_set_event_handler(ds,^{ unsigned long d=dispatch_source_get_data(ds); if(type==1) atomic_fetch_or(&got,d); else atomic_fetch_add(&got,d); atomic_store(&last,d); });
+    dispatch_activate(ds); dispatch_sync(q,^{}); usleep(1000);
+    atomic_store(&y_held,0); atomic_store(&y_go,0); _dispatch_verif_yield_cb=ycb; atomic_store(&y_arm,1);
+    dispatch_source_merge_data(ds,5);
+    for(int w=0; w<4000 && !atomic_load(&y_held); w++) usleep(50);
+    dispatch_suspend(ds); atomic_store(&y_go,1); usleep(3000); _dispatch_verif_yield_cb=0; atomic_store(&y_arm,0);
+    dispatch_resume(ds);
+    for(int w=0; w<3000; w++){ unsigned long g = type==2 ? atomic_load(&last) : atomic_load(&got); if(g==5) break; usleep(1000); }
+    unsigned long g = type==2 ? atomic_load(&last) : atomic_load(&got);
+    if(g!=5) fail("a value merged before a suspension that landed between the decision to deliver and the handler call was lost (not delivered by that invocation, not delivered after dispatch_resume; 3 s): type / delivered / invocation was held",type,(long)g,atomic_load(&y_held));
+    dispatch_source_cancel(ds); dispatch_release(ds); dispatch_release(q); n++; }
   if(viol){ printf("ORACLE VIOL seed=%llu %s\n",(unsigned long long)seed,vmsg); return 1; }
   printf("ORACLE ok items=%ld\n",n); return 0; }
